@@ -13,7 +13,7 @@ PROOF_MODULE = "Nlmodel.Proofs.C05"
 PROOF_FILES = ["Nlmodel/Proofs/C05.lean", "Nlmodel/Proofs/Lemmas/Lexer.lean", "Nlmodel/Proofs/Lemmas/VMErrors.lean",
                "Nlmodel/Model/Lexer.lean", "Nlmodel/Model/Parser.lean", "Nlmodel/Model/VM.lean"]
 THEOREM_FILE = PROOF_FILES[0]
-LEVEL_TEXT = ("Lean theorems: every token consumes at least one character, so tokenizing terminates and the fuel supplied is sufficient (any larger fuel gives the same stream); the token stream is never longer than the text; a step of the machine is a total function and a failing step or run fails with a type, index or argument error only (syntax/reference errors can only come from the front end). The model functions are total by construction (Lean accepts only terminating definitions), with explicit fuel whose sufficiency is proved for the tokenizer and for the parser (C05_parse_fuel_sufficient: potential 3*tokens + c per function, mutual induction over all seven parser functions); the whole pipeline never answers with the model-only FUEL error (C05_eval_never_fuel). What a model cannot exhibit - native stack exhaustion, allocator failure, wall-clock behaviour - is decided by the direct oracle only: every input is run on the real interpreter under catch_unwind, an instruction budget, an address-space limit and a timeout.")
+LEVEL_TEXT = ("Lean theorems: every token consumes at least one character, so tokenizing terminates and the fuel supplied is sufficient (any larger fuel gives the same stream); the token stream is never longer than the text; a step of the machine is a total function and a failing step or run fails with a type, index or argument error only (syntax/reference errors can only come from the front end). The model functions are total by construction (Lean accepts only terminating definitions), with explicit fuel whose sufficiency is proved for the tokenizer and for the parser (C05_parse_fuel_sufficient: potential 3*tokens + c per function, mutual induction over all seven parser functions); the whole pipeline never answers with the model-only FUEL error (C05_eval_never_fuel); THE PROPERTY ON THE MODEL IN FULL (C05_eval_is_value_or_documented_error): for every text and every budget eval answers a value, one of the five documented error kinds, or budget-exhausted (a loop the program spells out) - never a machine fault, because the compiler model's output always passes the verified bytecode checker (C02_compiler_verifiable). What a model cannot exhibit - native stack exhaustion, allocator failure, wall-clock behaviour - is decided by the direct oracle only: every input is run on the real interpreter under catch_unwind, an instruction budget, an address-space limit and a timeout.")
 LEVEL_NOTE = ("Partial: runtime crashes (stack overflow by deep native recursion, allocation failure) are outside the model; Known finding K6 (native recursion depth) is listed in known_findings.json.")
 TECHNIQUE = "Lean 4 proof (termination/totality, error-kind closure) + crash/hang oracle on the real interpreter over mutated and truncated inputs"
 RULE = ("random token sequences over the vocabulary; token-level edits (delete, duplicate, swap, replace) of generated and example "
